@@ -451,6 +451,9 @@ class MarkdownNormalizer(Renderer):
         extra = element.extra if isinstance(element, block.FencedCode) else ""
         extra_text = f" {extra}" if extra else ""
         lang_text = f"{lang}{extra_text}" if lang else ""
+        if lang_text.startswith("~"):
+            # Keep an info string that begins with a tilde apart from a tilde fence.
+            lang_text = " " + lang_text
 
         # Get fence character and length from CustomFencedCode, or use defaults
         if isinstance(element, CustomFencedCode):
